@@ -178,3 +178,240 @@ func sharedSchema(cx *lib.Ctx) {
 		}
 	}
 }
+
+// nilContext: evaluation without any EvalContext (what gohcl.DecodeBody(body, nil, …) and hclsimple do for
+// configurations without variables).  There is then no context of the caller's to key per-evaluation state on:
+// every goroutine evaluating the same parsed splat over literal data must still see only its own items.
+func nilContext(cx *lib.Ctx) {
+	res := cx.Res
+	R := cx.R.Fork()
+	rounds := cx.Scale(60, 1500)
+	if raceEnabled {
+		rounds = cx.Scale(30, 500)
+	}
+	goroutines := 8
+	for i := 0; i < rounds; i++ {
+		r := R.Fork()
+		n := 12 + r.Intn(40)
+		var items []string
+		for k := 0; k < n; k++ {
+			items = append(items, fmt.Sprintf("{ a = \"item%d\", b = %d, c = [%d, %d] }", k, k, k, -k))
+		}
+		lit := "[" + strings.Join(items, ", ") + "]"
+		src := "[" + lit + "[*].a, " + lit + ".*.b, " + lit + "[*].c[0], [for x in " + lit + "[*].a : \"${x}!\"], " + lit + "[*].c[*]]"
+		e, diags := hclsyntax.ParseExpression([]byte(src), "", hcl.InitialPos)
+		ref, d2 := hclsyntax.ParseExpression([]byte(src), "", hcl.InitialPos)
+		if diags.HasErrors() || d2.HasErrors() {
+			res.Fail(lib.Failure{Kind: "oracle", Key: "harness:nil-context-unparseable", Input: src})
+			continue
+		}
+		eval := func(x hclsyntax.Expression) (out string) {
+			defer func() {
+				if p := recover(); p != nil {
+					out = fmt.Sprintf("PANIC: %v", p)
+				}
+			}()
+			v, d := x.Value(nil)
+			return lib.DumpValue(v) + " " + diagList(d)
+		}
+		want := eval(ref)
+		got := make([]string, goroutines)
+		var start, done sync.WaitGroup
+		start.Add(1)
+		for g := 0; g < goroutines; g++ {
+			done.Add(1)
+			go func(g int) {
+				defer done.Done()
+				start.Wait()
+				for k := 0; k < 6; k++ {
+					if o := eval(e); o != want {
+						got[g] = o
+						return
+					}
+				}
+				got[g] = want
+			}(g)
+		}
+		start.Done()
+		done.Wait()
+		res.Count("nil-context-rounds")
+		res.Evaluations += goroutines * 6
+		res.Case(fmt.Sprintf("nil-context|%d", i), true)
+		for g := range got {
+			if got[g] != want {
+				res.Fail(lib.Failure{Kind: "oracle", Key: "nil-context:concurrent-result-differs",
+					Desc:  fmt.Sprintf("goroutine %d of %d: evaluating one parsed expression with a nil EvalContext concurrently gives a different result than evaluating it alone", g, goroutines),
+					Input: "NILCONTEXT " + lib.Trunc(src, 600), Impl: "alone:      " + lib.Trunc(want, 1200) + "\nconcurrent: " + lib.Trunc(got[g], 1200)})
+				break
+			}
+		}
+		if len(res.Failures) > 3 {
+			break
+		}
+	}
+}
+
+// deepDynamic: dynamic blocks nested four and five levels deep, every level with several elements, the innermost
+// attribute naming the iterator of every level.  The expanded tree is walked down to the third level; then the
+// sibling bodies of that level are processed (a) interleaved — all of them are asked for their blocks before any
+// attribute is evaluated — and (b) by one goroutine each.  Every sibling must see its own iterators, exactly as
+// in a depth-first walk of a separate expansion.
+func deepDynamic(cx *lib.Ctx) {
+	res := cx.Res
+	R := cx.R.Fork()
+	rounds := cx.Scale(40, 800)
+	if raceEnabled {
+		rounds = cx.Scale(20, 300)
+	}
+	for i := 0; i < rounds; i++ {
+		r := R.Fork()
+		levels := 4 + r.Intn(2)
+		names := []string{"a", "b", "c", "d", "e"}[:levels]
+		var sb strings.Builder
+		for li, n := range names {
+			ind := strings.Repeat("  ", li*2)
+			fmt.Fprintf(&sb, "%sdynamic %q {\n%s  for_each = [%s]\n%s  content {\n", ind, n, ind, func() string {
+				k := 2 + r.Intn(3)
+				var xs []string
+				for j := 0; j < k; j++ {
+					xs = append(xs, fmt.Sprintf("\"%s%d\"", n, j))
+				}
+				return strings.Join(xs, ", ")
+			}(), ind)
+		}
+		var refs []string
+		for _, n := range names {
+			refs = append(refs, "${"+n+".value}")
+		}
+		fmt.Fprintf(&sb, "%sv = \"%s\"\n", strings.Repeat("  ", levels*2), strings.Join(refs, "/"))
+		for li := levels - 1; li >= 0; li-- {
+			ind := strings.Repeat("  ", li*2)
+			fmt.Fprintf(&sb, "%s  }\n%s}\n", ind, ind)
+		}
+		src := sb.String()
+		f, diags := hclsyntax.ParseConfig([]byte(src), "deep.hcl", hcl.InitialPos)
+		if diags.HasErrors() {
+			res.Fail(lib.Failure{Kind: "oracle", Key: "harness:deep-dynamic-unparseable", Desc: diags.Error(), Input: src})
+			continue
+		}
+		ctx := &hcl.EvalContext{}
+		schemaFor := func(level int) *hcl.BodySchema {
+			if level == levels {
+				return &hcl.BodySchema{Attributes: []hcl.AttributeSchema{{Name: "v"}}}
+			}
+			return &hcl.BodySchema{Blocks: []hcl.BlockHeaderSchema{{Type: names[level]}}}
+		}
+		// the bodies of one level, in order
+		descend := func(bodies []hcl.Body, level int) ([]hcl.Body, bool) {
+			var out []hcl.Body
+			for _, b := range bodies {
+				c, d := b.Content(schemaFor(level))
+				if d.HasErrors() {
+					return nil, false
+				}
+				for _, blk := range c.Blocks {
+					out = append(out, blk.Body)
+				}
+			}
+			return out, true
+		}
+		leafValues := func(b hcl.Body, level int) (out []string) {
+			// depth-first from a body of `level` down to the values
+			defer func() {
+				if p := recover(); p != nil {
+					out = []string{fmt.Sprintf("PANIC: %v", p)}
+				}
+			}()
+			var walk func(b hcl.Body, level int)
+			walk = func(b hcl.Body, level int) {
+				c, d := b.Content(schemaFor(level))
+				if d.HasErrors() {
+					out = append(out, "ERR "+diagList(d))
+					return
+				}
+				if level == levels {
+					v, vd := c.Attributes["v"].Expr.Value(ctx)
+					out = append(out, lib.DumpValue(v)+" "+diagList(vd))
+					return
+				}
+				for _, blk := range c.Blocks {
+					walk(blk.Body, level+1)
+				}
+			}
+			walk(b, level)
+			return out
+		}
+		third := func() ([]hcl.Body, bool) {
+			bodies := []hcl.Body{dynblock.Expand(f.Body, ctx)}
+			ok := true
+			for level := 0; level < 3 && ok; level++ {
+				bodies, ok = descend(bodies, level)
+			}
+			return bodies, ok
+		}
+		refBodies, ok1 := third()
+		if !ok1 {
+			res.Fail(lib.Failure{Kind: "oracle", Key: "harness:deep-dynamic-error", Input: src})
+			continue
+		}
+		var want [][]string
+		for _, b := range refBodies {
+			want = append(want, leafValues(b, 3)) // depth-first, one sibling after the other
+		}
+		res.Count("deep-dynamic-rounds")
+		res.Case(fmt.Sprintf("deep-dynamic|%d", i), true)
+		// (a) interleaved: ask every sibling for its blocks first, evaluate afterwards
+		if bodies, ok := third(); ok {
+			var next [][]hcl.Body
+			good := true
+			for _, b := range bodies {
+				nb, ok := descend([]hcl.Body{b}, 3)
+				good = good && ok
+				next = append(next, nb)
+			}
+			for si := range bodies {
+				if !good {
+					break
+				}
+				var got []string
+				for _, nb := range next[si] {
+					got = append(got, leafValues(nb, 4)...)
+				}
+				if strings.Join(got, "\n") != strings.Join(want[si], "\n") {
+					res.Fail(lib.Failure{Kind: "oracle", Key: "deep-dynamic:interleaved-result-differs",
+						Desc:  fmt.Sprintf("sibling %d of the third level: asking all siblings for their blocks before evaluating gives other values than a depth-first walk", si),
+						Input: "DEEPDYNAMIC\n" + src, Impl: "depth-first: " + lib.Trunc(strings.Join(want[si], " | "), 800) + "\ninterleaved: " + lib.Trunc(strings.Join(got, " | "), 800)})
+					break
+				}
+			}
+		}
+		// (b) one goroutine per sibling
+		if bodies, ok := third(); ok {
+			got := make([][]string, len(bodies))
+			var start, done sync.WaitGroup
+			start.Add(1)
+			for si := range bodies {
+				done.Add(1)
+				go func(si int) {
+					defer done.Done()
+					start.Wait()
+					got[si] = leafValues(bodies[si], 3)
+				}(si)
+			}
+			start.Done()
+			done.Wait()
+			res.Evaluations += len(bodies)
+			for si := range bodies {
+				if strings.Join(got[si], "\n") != strings.Join(want[si], "\n") {
+					res.Fail(lib.Failure{Kind: "oracle", Key: "deep-dynamic:concurrent-result-differs",
+						Desc:  fmt.Sprintf("sibling %d of the third level, processed by its own goroutine, sees other values than in a depth-first walk", si),
+						Input: "DEEPDYNAMIC\n" + src, Impl: "depth-first: " + lib.Trunc(strings.Join(want[si], " | "), 800) + "\nconcurrent:  " + lib.Trunc(strings.Join(got[si], " | "), 800)})
+					break
+				}
+			}
+		}
+		if len(res.Failures) > 3 {
+			break
+		}
+	}
+}
